@@ -225,6 +225,14 @@ def run_values(a):
         ref = Hash(o.serialize()[:80]) if isinstance(o, CBlock) else Hash(o.serialize())
         if not (o.GetHash() == g0 == ref and hash(o) == hash(o.serialize())):
             bad_set += 1000
+    # mutable objects built with their arguments omitted are independent of each other
+    from bitcoin.core import CMutableTransaction as _MT, CMutableTxIn as _MI, CMutableTxOut as _MO
+    m1, m2 = _MT(), _MT()
+    m1.vin.append(_MI()); m1.vout.append(_MO(5, b''))
+    i1, i2 = _MI(), _MI()
+    i1.prevout.n = 7
+    if m2.vin or m2.vout or _MT().vin or _MT().serialize() == m1.serialize() or i2.prevout.n == 7 or _MI().prevout.n == 7:
+        bad_set += 10000000
     # a mutable transaction may hold its inputs / outputs in a tuple (legal): a snapshot of it is as
     # independent of later in-place edits of those elements as a snapshot of a list-holding one
     for t in txs:
